@@ -36,7 +36,13 @@ func c04Val(r *rand.Rand) value.Primary {
 	case 4:
 		return value.NewTernary([]ternary.Value{ternary.TRUE, ternary.FALSE, ternary.UNKNOWN}[r.Intn(3)])
 	case 5:
-		return value.NewDatetime(c06Times[r.Intn(len(c06Times))])
+		// bucket keys and sort values of datetimes are their UnixNano, which is only defined for the years
+		// 1678..2261 (finding datetime-sort-beyond-int64-nanos): keys are drawn from that range
+		for {
+			if t := c06Times[r.Intn(len(c06Times))]; t.Year() > 1700 && t.Year() < 2250 {
+				return value.NewDatetime(t)
+			}
+		}
 	default:
 		return value.NewString(c04Texts[r.Intn(len(c04Texts))])
 	}
